@@ -33,6 +33,8 @@ pub struct Osc {
     pub too_large_reason: &'static str,
     /// every unsound outcome is allowed once the behaviours of known findings are added to the model
     pub unsound_explained_by_known: bool,
+    /// which known-finding behaviours (flag bits of Mode::MayKnown) are needed to explain them
+    pub known_flags: u8,
 }
 
 pub struct OscCaps {
@@ -42,6 +44,10 @@ pub struct OscCaps {
 }
 
 pub fn compare(prog: &Arc<Prog>, caps: &OscCaps) -> Osc {
+    compare_opts(prog, caps, Opts::default())
+}
+
+pub fn compare_opts(prog: &Arc<Prog>, caps: &OscCaps, opts: Opts) -> Osc {
     let mut o = Osc {
         judged: false,
         shuttle_executions: 0,
@@ -60,6 +66,7 @@ pub fn compare(prog: &Arc<Prog>, caps: &OscCaps) -> Osc {
         max_depth: 0,
         too_large_reason: "",
         unsound_explained_by_known: false,
+        known_flags: 0,
     };
     // models first (cheap): skip the expensive Shuttle enumeration when a model is too large
     let must = model::outcomes(prog, Mode::Must, caps.model_states);
@@ -82,7 +89,7 @@ pub fn compare(prog: &Arc<Prog>, caps: &OscCaps) -> Osc {
     // a step bound well above anything the program can need: straight-line programs take at most a few
     // steps per micro-step of the model; a livelock in Shuttle then shows up as a StepBound outcome
     let step_bound = 200 + 20 * may.max_depth;
-    let sh = enumerate_capped(prog, caps.shuttle_executions, caps.max_failing, step_bound, Opts::default());
+    let sh = enumerate_capped(prog, caps.shuttle_executions, caps.max_failing, step_bound, opts);
     o.shuttle_executions = sh.executions;
     o.max_depth = sh.max_depth;
     o.nondeterminism = sh.nondeterminism.clone();
@@ -96,10 +103,7 @@ pub fn compare(prog: &Arc<Prog>, caps: &OscCaps) -> Osc {
             }
         }
         o.shuttle_outcomes = sh.outcomes.len();
-        if !o.unsound.is_empty() {
-            let mk = model::outcomes(prog, Mode::MayKnown, caps.model_states);
-            o.unsound_explained_by_known = mk.complete && o.unsound.iter().all(|(u, _)| mk.outcomes.contains(u));
-        }
+        explain_by_known(prog, caps, &mut o);
         return o;
     }
     o.judged = true;
@@ -109,10 +113,7 @@ pub fn compare(prog: &Arc<Prog>, caps: &OscCaps) -> Osc {
             o.unsound.push((out.clone(), path.clone()));
         }
     }
-    if !o.unsound.is_empty() {
-        let mk = model::outcomes(prog, Mode::MayKnown, caps.model_states);
-        o.unsound_explained_by_known = mk.complete && o.unsound.iter().all(|(u, _)| mk.outcomes.contains(u));
-    }
+    explain_by_known(prog, caps, &mut o);
     let sh_proj: BTreeSet<Outcome> = sh.outcomes.keys().map(|x| model::project_leader(prog, x)).collect();
     for out in &must.outcomes {
         let p = model::project_leader(prog, out);
@@ -123,6 +124,20 @@ pub fn compare(prog: &Arc<Prog>, caps: &OscCaps) -> Osc {
     o.missing.sort();
     o.missing.dedup();
     o
+}
+
+fn explain_by_known(prog: &Arc<Prog>, caps: &OscCaps, o: &mut Osc) {
+    if o.unsound.is_empty() {
+        return;
+    }
+    for flags in [1u8, 2, 3] {
+        let mk = model::outcomes(prog, Mode::MayKnown(flags), caps.model_states);
+        if mk.complete && o.unsound.iter().all(|(u, _)| mk.outcomes.contains(u)) {
+            o.unsound_explained_by_known = true;
+            o.known_flags = flags;
+            return;
+        }
+    }
 }
 
 pub fn describe(o: &Outcome) -> String {
